@@ -57,6 +57,11 @@ func (c *HTTPResponder) Write(status int, body io.Reader) (written int64, err er
 		http.Error(c.writer, fmt.Sprintf("Bad Gateway: upstream answered with the invalid status code %d", status), http.StatusBadGateway)
 		return 0, nil // The 502 is a complete response of its own
 	}
+	if _, sent := c.GetHeaders()["Content-Type"]; !sent {
+		// The origin named no content type: none is made up. (net/http would sniff one from the
+		// first bytes of the body, a different one for a 206 of the same resource.)
+		c.GetHeaders()["Content-Type"] = nil
+	}
 	c.writeStatusHeader(status)
 	if (status >= 100 && status < 200) || status == http.StatusNoContent || status == http.StatusNotModified {
 		// These never carry a body: net/http refuses to write one, which must not be mistaken for a
